@@ -46,6 +46,11 @@ THEOREMS = [
     'C06_abs_blind_engine_keyed : AbsBlindK algo ab key oeq leq -> asimK t t\' -> memo f t i = Some (o, t1) -> memo f\' t\' i = Some (o\', t1\') -> asimK t1 t1\' /\\ (ab (style t) = false -> oeq o o\');  AbsBlind -> AbsBlindK',
     'C06_grid_algorithm_abs_blind_keyed : AbsBlindK grid_alg g_visible_absolute (fun s => (gs_row s, gs_column s)) gout_eq glay_eq',
     'C06_taffy_engine_instance_partial : AbsChildLocal abs_child -> the keyed conclusion for engines of block, flex, grid containers and leaves (taffy_algo), ab = box-generating absolute, key = grid lines',
+    'C06_taffy_layout_pass_partial, C06_taffy_layout_passes_partial (audit 7b) : AbsChildLocal abs_child -> asimK t t\' -> root not absolute -> taffy_compute_root / taffy_passes '
+    '(what `vh taffytree` evaluates) = Some on both sides -> asimK of the resulting trees',
+    'C06_bl_engine_real_instance_partial (audit 7b) : the conclusion of C06_abs_blind_engine_partial for bl_memo block_pre abs_child_block, the engine `vh blocktree` runs',
+    'computed instances (audit 7b): C06_bl_engine_real_example, C06_grid_algorithm_abs_blind_lines_example, C06_grid_algorithm_abs_blind_refuted_no_panic, '
+    'C06_taffy_engine_example (absolute flex container vs bare absolute leaf inside a GRID, same lines), C06_taffy_layout_passes_example (two passes)',
 ]
 
 
